@@ -50,6 +50,8 @@ def load(model=True):
                 sys.modules[k] = v
     else:
         sf = importlib.import_module('static_frame')
+    if model:
+        _install_symlist()
     origin = os.path.realpath(sf.__file__)
     if not origin.startswith(os.path.realpath(REPO) + os.sep):
         raise RuntimeError(f'static_frame imported from {origin}, not from {REPO}')
@@ -69,3 +71,49 @@ def xp():
         return npmodel
     import numpy
     return numpy
+
+
+class SymList(list):
+    """A list whose int/slice indexing is CPython's documented algorithm written in Python, so that a
+    symbolic key splits per region (negative / in range / out of range; slice regions) instead of
+    being realised value by value inside list.__getitem__ (C)."""
+    __slots__ = ()
+
+    def __getitem__(self, key):
+        from vf.npmodel.array import slice_positions, cint
+        n = len(self)
+        if isinstance(key, slice):
+            pos = slice_positions(key, n)[0]
+            return [list.__getitem__(self, i) for i in pos]
+        if isinstance(key, int) and not isinstance(key, bool):
+            i = key
+            if i < 0:
+                i = i + n
+            if i < 0 or i >= n:
+                raise IndexError('list index out of range')
+            return list.__getitem__(self, cint(i, 0, n))
+        return list.__getitem__(self, key)
+
+    def copy(self):
+        return SymList(self)
+
+
+def _install_symlist():
+    """TypeBlocks._index (the (block, column) directory, a Python list indexed by the column key) is
+    re-wrapped as a SymList after the REAL __init__/__setstate__ have run."""
+    from static_frame.core.type_blocks import TypeBlocks
+    real_init = TypeBlocks.__init__
+    real_setstate = TypeBlocks.__setstate__
+
+    def __init__(self, *a, **kw):
+        real_init(self, *a, **kw)
+        if self._index.__class__ is not SymList:
+            self._index = SymList(self._index)
+    __init__.__wrapped__ = real_init
+
+    def __setstate__(self, state):
+        real_setstate(self, state)
+        if self._index.__class__ is not SymList:
+            self._index = SymList(self._index)
+    TypeBlocks.__init__ = __init__
+    TypeBlocks.__setstate__ = __setstate__
